@@ -573,7 +573,8 @@ def probe_values():
     """deser, setstate, getstate and keymode, observed on small tasks."""
     from labtech.serialization import Serializer
     import lv_probe_types as T
-    out = dict(deser=None, setstate=None, getstate=None, keymode=None)
+    import json
+    out = dict(deser=None, setstate=None, getstate=None, keymode=None, sermode=None)
     try:
         ser = Serializer()
         t = T.PBox(v=[T.PLeaf(x=1), {'k': T.PLeaf(x=2), 'e': T.PColor.RED, 'l': [T.PLeaf(x=3)]}, [[T.PColor.BLUE]]])
@@ -611,6 +612,21 @@ def probe_values():
             out['setstate'] = 'SSPlain'
     except BaseException:
         pass
+    try:
+        # a dict that spells a serialised task / enum member / wrapped dict, the real things, and near misses
+        cls = f'{T.PLeaf.__module__}.PLeaf'
+        mimics = [{'_is_task': True, '__class__': cls, 'x': 1}, {'_is_enum': True, '__class__': f'{T.PColor.__module__}.PColor', 'name': 'RED'},
+                  {'_is_dict': True, 'items': {'k': 1}}, {'_is_task': 1, 'y': (T.PLeaf(x=2),)}, {'_is_task': False, 'k': {'_is_enum': 'yes'}}]
+        reals = [T.PLeaf(x=1), T.PColor.RED, {'k': 1}]
+        sers = [json.dumps(ser.serialize_task(T.PBox(v=v))) for v in mimics + reals]
+        backs = [ser.deserialize_task(ser.serialize_task(T.PBox(v=v)), result_meta=None) for v in mimics]
+        if len(set(sers)) == len(sers) and all(b == T.PBox(v=v) and not isinstance(b.v, (T.PLeaf, T.PColor)) for b, v in zip(backs, mimics)):
+            out['sermode'] = 'SerWrapsDicts'
+        elif sers[0] == sers[len(mimics)] and sers[1] == sers[len(mimics) + 1]:
+            out['sermode'] = 'SerPlainDicts'
+    except BaseException:
+        if 'sers' in dir() and len(sers) == len(mimics) + len(reals) and sers[0] == sers[len(mimics)]:
+            out['sermode'] = 'SerPlainDicts'
     try:
         a, b = T.PRw(s='AB'), T.PRw(s='ab')
         cache = a._lt.cache
